@@ -562,15 +562,15 @@ theorem WF_step {st : St} (hwf : WF st) (o : Op) (ho : OpOK o) : WF (step st o).
   | ann h d =>
     simp only [step]
     cases epochForBlock st h with
-    | some e => exact WF_congr rfl hwf
+    | some e => exact WF_congr (st := st) rfl hwf
     | none => exact hwf
   | cfg h d =>
     simp only [step]
     cases epochForBlock st h with
-    | some e => exact WF_congr rfl hwf
+    | some e => exact WF_congr (st := st) rfl hwf
     | none => exact hwf
-  | dbe e d => exact WF_congr rfl hwf
-  | dbc e d => exact WF_congr rfl hwf
+  | dbe e d => exact WF_congr (st := st) rfl hwf
+  | dbc e d => exact WF_congr (st := st) rfl hwf
   | restart => exact hwf
 
 theorem foldl_inv {σ α : Type} (f : σ → α → σ) (P : List α → σ → Prop)
@@ -593,7 +593,7 @@ theorem C26_wf_reachable (l : Nat) (ops : List Op) (hops : ∀ o ∈ ops, OpOK o
 theorem lookup_cons {β : Type} (p : Nat × β) (m : List (Nat × β)) (k : Nat) :
     lookup (p :: m) k = if p.1 = k then some p.2 else lookup m k := by
   unfold lookup
-  by_cases h : p.1 = k <;> simp [List.find?_cons, h]
+  by_cases h : p.1 = k <;> simp [h]
 
 theorem lookup_mem {β : Type} : ∀ (m : List (Nat × β)) (k : Nat) (v : β), lookup m k = some v → (k, v) ∈ m
   | [], _, _, h => by simp [lookup] at h
@@ -632,12 +632,12 @@ theorem lookup_insert_ne {β : Type} (m : List (Nat × β)) (k k' : Nat) (v : β
       rw [List.map_cons, lookup_cons, lookup_cons, ih]
       by_cases hp : p.1 = k
       · have : ¬ p.1 = k' := by omega
-        simp [hp, this, Ne.symm hne]
+        simp [hp, Ne.symm hne]
       · simp [hp]
   · simp only [ha, Bool.false_eq_true, if_false]
     clear ha
     induction m with
-    | nil => simp [lookup_cons, Ne.symm hne, lookup]
+    | nil => simp [Ne.symm hne, lookup]
     | cons p m ih => rw [List.cons_append, lookup_cons, lookup_cons, ih]
 
 theorem lookup_insert_self {β : Type} (m : List (Nat × β)) (k : Nat) (v w : β)
@@ -755,6 +755,6 @@ theorem Src_reachable (l : Nat) (ops : List Op) : SrcE ops (run l ops) ∧ SrcC 
   have := foldl_inv (fun s o => (step s o).1) (fun pre s => SrcE pre s ∧ SrcC pre s)
     (fun pre s o ih => Src_step o ih) ops [] (St.init l)
     ⟨by intro e es x hl; simp [St.init, lookup] at hl, by intro e es x hl; simp [St.init, lookup] at hl⟩
-  simpa using this
+  simpa [run] using this
 
 end Gossamer.C26
